@@ -415,6 +415,44 @@ func evStrings(evs []pEvent) []string {
 	return out
 }
 
+// two runs on ONE executor: whatever the first run registered (defines) or left in the data is what
+// the second run starts from, also when the first run failed
+func runTree2(a1, a2 *pAct, data map[string]any) (evs []pEvent, failed bool, final any, panicked string, decodeErr error) {
+	var specs []pipeline.ActionSpec
+	for _, a := range []*pAct{a1, a2} {
+		bs, err := yaml.Marshal(a.yamlMap())
+		if err != nil {
+			return nil, false, nil, "", err
+		}
+		var spec pipeline.ActionSpec
+		if err := yaml.Unmarshal(bs, &spec); err != nil {
+			return nil, false, nil, "", err
+		}
+		specs = append(specs, spec)
+	}
+	l := &evListener{}
+	d := anyToContainer(data)
+	ex := pipeline.New(pipeline.WithListener(l), pipeline.WithData(d),
+		pipeline.WithExtActions(map[string]pipeline.ActionFactory{"trace": &traceFactory{l: l}}))
+	var runErr error
+	panicked = guard(func() { _ = ex.Execute(specs[0]); runErr = ex.Execute(specs[1]) })
+	return l.evs, runErr != nil, nodeToAny(d), panicked, nil
+}
+
+func execCase2(kind string, a1, a2 *pAct, data map[string]any, nontrivial bool) Case {
+	evs, failed, final, pn, derr := runTree2(a1, a2, data)
+	if derr != nil {
+		return Case{Kind: kind, Desc: map[string]any{"tree": a1, "decode_error": derr.Error()}, Fail: []string{"generated tree does not decode: " + derr.Error()}}
+	}
+	var fail []string
+	if pn != "" {
+		fail = append(fail, "panic: "+pn)
+	}
+	return Case{Kind: kind, Desc: map[string]any{"first": a1, "second": a2, "data": data, "events": evStrings(evs), "failed": failed, "final": final},
+		Coq:  "CExec2 " + gNode(data) + " " + a1.gallina() + " " + a2.gallina() + " " + gList(evs, func(e pEvent) string { return e.gallina() }) + " " + gBool(failed) + " " + gNode(final),
+		Fail: fail, Nontrivial: nontrivial}
+}
+
 func execCase(kind string, a *pAct, data map[string]any, nontrivial bool) Case {
 	evs, failed, final, pn, derr := runTree(a, data)
 	if derr != nil {
